@@ -342,6 +342,19 @@ fn sweep(texts: &[(String, String)], detectors: &[Detector], profile: &str, sequ
 
 /// child mode: run everything in this build profile, print one JSON document on stdout
 fn on_hang(det: &str, src: &str) {
+    // a call that is merely slow under load is not a hang: the verdict needs the same call, alone in a fresh
+    // process, not to end within 60 s either
+    match dets::ends_in_fresh_process(det, src, 60) {
+        Some(true) => {
+            eprintln!("note: {} needed more than 10 s in the loaded sweep but ends when run alone; not a hang", det);
+            return;
+        }
+        Some(false) => {}
+        None => {
+            eprintln!("MACHINERY: cannot confirm a suspected hang of {}", det);
+            std::process::exit(2);
+        }
+    }
     let doc = json!({
         "profile": std::env::var("MC_PROFILE").unwrap_or_default(),
         "partial": true,
@@ -349,7 +362,7 @@ fn on_hang(det: &str, src: &str) {
             "site": format!("{}:hang", det),
             "input": src,
             "expected": "the detector terminates and returns a (possibly empty) set of lines",
-            "observed": format!("no return within 10 s (profile {})", std::env::var("MC_PROFILE").unwrap_or_default()),
+            "observed": format!("no return within 10 s in the sweep nor within 60 s alone in a fresh process (profile {})", std::env::var("MC_PROFILE").unwrap_or_default()),
             "size": src.len(),
             "label": "watchdog",
             "detector": det,
